@@ -39,6 +39,30 @@ Theorem C20_roundtrip_call_invocation :
 Proof. exact roundtrip_call_invocation. Qed.
 Print Assumptions C20_roundtrip_call_invocation.
 
+(* call -> INVOCATION for EVERY way of registering (plain URI, function + prefix=, decorated object, decorated object +
+   prefix=; exact registration without and pattern registration with the router's `procedure` detail): the callee
+   binds the ciphertext to the registered full URI — the one REGISTER carried — and the endpoint gets exactly (args, kwargs) *)
+Theorem C20_roundtrip_call_invocation_registered :
+  forall (V P C nonce : Type) (seal : secret -> nonce -> P -> C) (open : secret -> C -> option P)
+    (dumps : envelope V -> option P) (loads : P -> option (envelope V)),
+  aead_ok seal open ->
+  json_ok dumps loads ->
+  forall (note : recv V -> V) (ra rb : keyring) (prefix : option string) (name : string)
+    (detail : option string) (a : list V) (k : kw V) (n n' : nonce) (s : secret) (b : body V C),
+  let full := fst (register_uris prefix name) in
+  detail = None \/ detail = Some full ->
+  get_box ra true full = Some s ->
+  get_box rb false full = Some s ->
+  originate V P C nonce seal dumps (Some ra) full a k n = Sent b ->
+  on_invocation_registered V P C nonce seal open dumps loads note (Some rb) prefix name detail b n' =
+  EndpointInvoked a k true /\
+  snd (register_uris prefix name) = full /\ full = match prefix with
+                                                   | Some p => p ++ name
+                                                   | None => name
+                                                   end.
+Proof. exact roundtrip_call_invocation_registered. Qed.
+Print Assumptions C20_roundtrip_call_invocation_registered.
+
 (* YIELD -> RESULT (final or progressive): the caller's originator box recovers exactly the callee's result *)
 Theorem C20_roundtrip_yield_result :
   forall (V P C nonce : Type) (seal : secret -> nonce -> P -> C) (open : secret -> C -> option P)
